@@ -1,0 +1,89 @@
+//go:build verif
+
+package diagnostic
+
+import (
+	"go/token"
+
+	"go.uber.org/nilaway/annotation"
+	"go.uber.org/nilaway/config"
+	"go.uber.org/nilaway/util/analysishelper"
+	"golang.org/x/tools/go/analysis"
+)
+
+// This file is only compiled with the `verif` build tag. It lets the verification harness feed
+// synthetic conflicts to the real diagnostic engine (sorting, nolint filtering, grouping, rendering).
+
+// VerifNode is one node of a nil flow.
+type VerifNode struct {
+	PPos, CPos   token.Position // zero value = no position
+	PRepr, CRepr string
+}
+
+// VerifConflict is a synthetic conflict.
+type VerifConflict struct {
+	Pos         token.Position
+	Nil, Nonnil []VerifNode
+}
+
+// VerifDiag is one produced diagnostic.
+type VerifDiag struct {
+	Pos     token.Position
+	Valid   bool
+	Message string
+}
+
+type verifStr string
+
+func (s verifStr) String() string { return string(s) }
+
+func verifNode(n VerifNode) node {
+	var p, c interface{ String() string }
+	p = verifStr(n.PRepr)
+	if n.PPos.IsValid() {
+		p = annotation.LocatedRepr{Contained: verifStr(n.PRepr), Location: n.PPos}
+	}
+	c = verifStr(n.CRepr)
+	if n.CPos.IsValid() {
+		c = annotation.LocatedRepr{Contained: verifStr(n.CRepr), Location: n.CPos}
+	}
+	return newNode(p, c)
+}
+
+// VerifDiagnostics runs Engine.Diagnostics on the given conflicts and nolint ranges.
+func VerifDiagnostics(cs []VerifConflict, ranges []Range, grouping, excludeTestFiles bool) (out []VerifDiag, panicked string) {
+	fset := token.NewFileSet()
+	pass := analysishelper.NewEnhancedPass(&analysis.Pass{
+		Analyzer: &analysis.Analyzer{Name: "verif"},
+		Fset:     fset,
+		ResultOf: map[*analysis.Analyzer]any{
+			config.Analyzer: &config.Config{ExcludeTestFiles: excludeTestFiles},
+			NoLintAnalyzer:  &analysishelper.Result[[]Range]{Res: ranges},
+		},
+	})
+	defer func() {
+		if r := recover(); r != nil {
+			panicked = "panic"
+			if s, ok := r.(string); ok {
+				panicked = s
+			} else if e, ok := r.(error); ok {
+				panicked = e.Error()
+			}
+		}
+	}()
+	e := NewEngine(pass)
+	for _, c := range cs {
+		flow := nilFlow{}
+		for _, n := range c.Nil {
+			flow.nilPath = append(flow.nilPath, verifNode(n))
+		}
+		for _, n := range c.Nonnil {
+			flow.nonnilPath = append(flow.nonnilPath, verifNode(n))
+		}
+		e.conflicts = append(e.conflicts, conflict{position: c.Pos, flow: flow})
+	}
+	for _, d := range e.Diagnostics(grouping) {
+		out = append(out, VerifDiag{Pos: fset.Position(d.Pos), Valid: d.Pos.IsValid(), Message: d.Message})
+	}
+	return out, ""
+}
